@@ -84,14 +84,17 @@ class Session:
         ct = "k:%d" % ctx if isinstance(ctx, int) else "c:%d:%08x:%d" % ctx
         return self.add("frag_preview %s %s %d" % (pdu.expr, ct, buflen), op="frag_preview", pdu=pdu, ctx=ctx, buflen=buflen)
 
-    def dec_new(self, slots, maxpdu, mgr=None):
+    def dec_new(self, slots, maxpdu, mgr=None, crc=None):
+        """crc: constant xor-ed into the default CRC by the calculator handed to the decapsulator (None: 0)"""
         if mgr is None:
             mt = "-"
         elif mgr == "sig":
             mt = "sig"
         else:
             mt = ",".join("%04x:%s%d" % (i, k, n) for i, (k, n) in sorted(mgr.items())) or "-"
-        return self.add("dec_new %d %d %s" % (slots, maxpdu, mt), op="dec_new", slots=slots, maxpdu=maxpdu, mgr=mgr)
+        if crc is None:
+            return self.add("dec_new %d %d %s" % (slots, maxpdu, mt), op="dec_new", slots=slots, maxpdu=maxpdu, mgr=mgr)
+        return self.add("dec_new %d %d %s %d" % (slots, maxpdu, mt, crc), op="dec_new", slots=slots, maxpdu=maxpdu, mgr=mgr, crc=crc)
 
     def prov(self, ln, fill=0):
         return self.add("prov %d %d" % (ln, fill), op="prov", len=ln, fill=fill)
@@ -423,6 +426,31 @@ def suite_transfer(rng, tier, n_sessions=None, with_ext=False):
                 continue_pdu(s, rng, pdu, s.ops[i]["reg"], lens[k] - first, big=lens[k] > 3000, on_packet=on_packet)
             s.prov(maxpdu, 0xEE)
         out.append(s)
+    # calculators other than the default one, the same on both sides (every transfer is delivered), replaced in
+    # the middle of the traffic on one side only (trains that straddle the change are refused with ErrorCrc — by
+    # the receiver's calculator, whatever the sender's is now), then on the other side too (delivered again)
+    for kx in (0, 0x1, 0xDEADBEEF, 0xFFFFFFFF):
+        for scenario in ("same", "sender-changes", "receiver-differs"):
+            s = Session("xfer-crc-%x-%s%s" % (kx, scenario, "-ext" if with_ext else ""))
+            s.strict = scenario == "same"
+            s.enc("new")
+            s.enc("set_crc", kx)
+            s.dec_new(2, 40, None, crc=(kx if scenario != "receiver-differs" else kx ^ 0x80000001))
+            for _ in range(3):
+                s.prov(40, 0xEE)
+            exts = [(0x0301, b"\x01\x02\x03\x04")] if with_ext else None
+            for k in range(3):
+                pdu = bs_gen(7 * kx % 1000 + k, 30)
+                i = s.encap(pdu, k, 0x0800, LBL_A6, bs_const(0xA5, 26 if with_ext else 20), exts=exts)
+                s.decap_if("p:%d" % s.ops[i]["reg"], of=i)
+                chain = s.ops[i]["reg"]
+                if scenario == "sender-changes" and k == 1:
+                    s.enc("set_crc", kx ^ 0x00010000)        # after the first fragment: its CRC is already in the context
+                for bl in (12, 100):
+                    j = s.encap_frag(pdu, chain, bs_const(0xA5, bl), cout=chain)
+                    s.decap_if("p:%d" % s.ops[j]["reg"], of=j)
+                s.prov(40, 0xEE)
+            out.append(s)
     # receivers with as many slots as there are frag ids, or more: the slot is the frag id itself
     for slots in (255, 256, 257, 300, 1000):
         for fid in (0, 1, 254, 255):
